@@ -15,6 +15,9 @@ func (k msgServer) CreatePosition(ctx context.Context, msg *types.MsgCreatePosit
 	if _, err := k.addressCodec.StringToBytes(msg.Sender); err != nil {
 		return nil, errorsmod.Wrap(err, "invalid sender address")
 	}
+	if msg.TokenBase.Amount.IsNil() || msg.TokenQuote.Amount.IsNil() || msg.MinAmountBase.IsNil() || msg.MinAmountQuote.IsNil() {
+		return nil, errorsmod.Wrap(types.ErrInvalidTokenAmounts, "token amounts and min amounts cannot be empty")
+	}
 	// end static validation
 	sdkCtx := sdk.UnwrapSDKContext(ctx)
 
